@@ -114,7 +114,7 @@ class PROP(PropCheck):
             b = {"true": True, "false": False}.get(t)
             src = HEAD + "DISPLAY(TO_NUMBER(%s))\nDISPLAY(TO_BOOL(%s))\n" % (q(t), q(t))
             out.append(Case(src, meta={"exp": Y.show_value(f) + "\n" + Y.show_value(b) + "\n", "kind": "parse"}))
-        for _ in range((200 if tier == "quick" else 20000) * scale):
+        for _ in range((200 if tier == "quick" else 8000) * scale):
             s = "".join(rng.choice(ALPHA + ["x", "\t", "Z"]) for _ in range(rng.randint(3, 12)))
             p = s[rng.randrange(len(s)):][:rng.randint(0, 3)] if rng.random() < 0.7 else rng.choice(ALPHA)
             src, exp = self.prog_bin(s, p)
